@@ -16,7 +16,8 @@
 (***************************************************************************)
 EXTENDS JV
 
-Rank(o) == CASE o = "adm" -> 0 [] o = "perm" -> 1 [] o = "temp" -> 2 [] OTHER -> 9
+\* "adm2", "perm2", "temp2": an instance of a subclass of that error class is an error of that class
+Rank(o) == CASE o \in {"adm", "adm2"} -> 0 [] o \in {"perm", "perm2"} -> 1 [] o \in {"temp", "temp2"} -> 2 [] OTHER -> 9
 
 \* strictOps = TRUE is the statement ("only handlers matching ... operation ... run"); FALSE is family F12
 \* the handler's filters, judged on the reviewed object (the new one; the old one when the review is about a deletion)
@@ -85,7 +86,7 @@ Judge(rec, strict) ==
      ELSE IF rec.resp.raised # "" THEN "raised"
      ELSE IF rec.resp.allowed # expAllowed THEN "wrong_allowed"
      ELSE IF ~expAllowed /\ (rec.resp.message # rec.handlers[FirstError(rec, sel)].msg
-                             \/ rec.resp.code # (IF rec.handlers[FirstError(rec, sel)].outcome = "adm" THEN rec.handlers[FirstError(rec, sel)].code ELSE 500))
+                             \/ rec.resp.code # (IF rec.handlers[FirstError(rec, sel)].outcome \in {"adm", "adm2"} THEN rec.handlers[FirstError(rec, sel)].code ELSE 500))
           THEN "wrong_status"
      ELSE IF rec.resp.warnings # warns THEN "wrong_warnings"
      ELSE IF ~got.ok THEN "patch_does_not_apply"
